@@ -521,7 +521,7 @@ class COMBINE_BY:
     (`reverse` puts the other operand first: it is the left operand of a reflected operator)"""
     cases = _cb_cases()
     returns_by_case = {cn: _cb_post(cn) for cn in _cb_cases()}
-    only_raises = ["Exception"]
+    only_raises = []
 
     @staticmethod
     def setup(ex, frame):
@@ -543,16 +543,21 @@ def _op_contract(name, op, reverse):
         cases = {"plain-operands": dict(cls=Rec("LogicalClass", combinator=Str("~")), other=OBJ_NN)}
         returns = {"operator": "made_by(result, '%s')" % op, "two_operands": "nargs(result) == 2",
                    "reading_order": "argat(result, 0) is %s and argat(result, 1) is %s" % (first, second)}
-        only_raises = ["Exception"]
-        setup = COMBINE_BY.setup
-
-        @staticmethod
-        def _s(ex, frame):
-            pass
+        only_raises = []
+        setup = staticmethod(_op_setup)
     return _
 
 
-for _nm, _op, _rev in (("__and__", "&", False), ("__rand__", "&", True), ("__xor__", "^", False), ("__rxor__", "^", True)):
+def _op_setup(ex, frame):
+    """a plain operand: not a LogicalType, not a tuple, and (for | which unpacks typing.Union aliases) no `__origin__`"""
+    COMBINE_BY.setup(ex, frame)
+    o = frame.env["other"]
+    if isinstance(o, VObj):
+        ex.assume(z3.Not(sym.hasattr_f(sym.ty(o.t), z3.StringVal("__origin__"))))
+
+
+for _nm, _op, _rev in (("__and__", "&", False), ("__rand__", "&", True), ("__or__", "|", False), ("__ror__", "|", True),
+                       ("__xor__", "^", False), ("__rxor__", "^", True)):
     _op_contract(_nm, _op, _rev)
 
 
@@ -620,6 +625,24 @@ def _meta_op(name, op, reverse):
 for _nm, _op, _rev in (("__and__", "&", False), ("__rand__", "&", True), ("__or__", "|", False), ("__ror__", "|", True),
                        ("__xor__", "^", False), ("__rxor__", "^", True)):
     _meta_op(_nm, _op, _rev)
+
+
+def _meta_op_rule(name, op):
+    """the same operators with a constrained type (a Rule class, possibly built on int / dict / set) as the other operand"""
+    @contract(SCH, "LogicalMeta." + name, props=["C09"], which="rule-operand")
+    class _:
+        __doc__ = ("`DataClass %s ConstrainedType`: builds the combination whatever builtin the constrained type is based on "
+                   "(int, dict and set define the reflected operator for their INSTANCES; looked up on the class it shadows the "
+                   "metaclass's): no exception escapes" % op)
+        cases = {"rule-operand": dict(cls=Rec("DataClassOperand"), other=Rec("RuleClass", combinator=NONE))}
+        returns = {"operator": "made_by(result, '%s')" % op}
+        only_raises = []
+    _.key = (SCH, "LogicalMeta.%s#rule-operand" % name)
+    return _
+
+
+for _nm, _op in (("__and__", "&"), ("__xor__", "^")):
+    _meta_op_rule(_nm, _op)
 
 
 @contract(SCH, "LogicalMeta.__invert__", props=["C09"])
